@@ -1,4 +1,5 @@
 mod bdd;
+mod core;
 mod dft;
 mod hal;
 mod tmpbytes;
@@ -106,6 +107,26 @@ fn main() {
                 writeln!(f, "{}", serde_json::to_string(&ev).unwrap()).unwrap();
                 f.flush().unwrap();
             }
+        }
+        // core <programs.ndjson> <events.ndjson>
+        "core" => {
+            let progs = read_ndjson(&args[2]);
+            let mut out = BufWriter::new(std::fs::File::create(&args[3]).unwrap());
+            let mut mods = core::CMods::new();
+            let seed = env_seed();
+            let mut n = 0;
+            for (idx, c0) in progs.iter().enumerate() {
+                let mut c = c0.clone();
+                if c.get("id").is_none() {
+                    c["id"] = serde_json::json!(idx + 1);
+                }
+                for ev in core::run_program(&mut mods, &c, seed) {
+                    writeln!(out, "{}", serde_json::to_string(&ev).unwrap()).unwrap();
+                    n += 1;
+                }
+            }
+            out.flush().unwrap();
+            println!("core: {} programs {} events", progs.len(), n);
         }
         // bdd-tables <out.ndjson>
         "bdd-tables" => {
